@@ -121,6 +121,17 @@ theorem tokens_within (cfg : LexCfg) (hok : linesOk cfg = true) (text : List Cha
     ∀ t ∈ lexWith cfg text, t.start < t.stop ∧ t.stop ≤ text.length :=
   fun t ht => let h := line_exact_table cfg hok text t ht; ⟨h.2.2.1, h.2.2.2.1⟩
 
+/-- the token list is in text order and the tokens do not overlap: every token ends at or before the start of
+    every later token (with `tokens_within`: start < stop, so `a` before `b` gives a.start < a.stop ≤ b.start < b.stop;
+    in `span_exact` a node's first token precedes its last token, hence start_stream < end_stream) -/
+theorem tokens_ordered_table (cfg : LexCfg) (hok : linesOk cfg = true) (text : List Char) :
+    (lexWith cfg text).Pairwise (fun a b => a.stop ≤ b.start) := by
+  have := lexRun_sorted cfg hok text.length [] text
+  simpa [lexWith, countNl] using this
+
+theorem tokens_ordered (text : List Char) : (lex text).Pairwise (fun a b => a.stop ≤ b.start) :=
+  tokens_ordered_table Gen.OalLex.cfg table_lines_ok text
+
 /-- lexer_total: for every rule table and every input the lexer model, run with fuel = length of the input,
     consumes the whole input (no input is rejected: an illegal character is skipped by `t_error`) -/
 theorem lexer_total (cfg : LexCfg) (text : List Char) : (lexRun cfg text.length text 0 1).2 = [] :=
